@@ -53,6 +53,8 @@ func TestNLE(t *testing.T) {
 			err = runNATS(rep, rng, n, thorough)
 		case "race":
 			err = runRace(rep, rng, n, thorough)
+		case "stress":
+			err = runStress(rep, rng, n, thorough)
 		default:
 			err = runScenarioMode(t, mode, rep, rng, n, thorough)
 		}
